@@ -248,7 +248,7 @@ def run(args):
         if key in failed_by_fn or key in searched_extra:
             continue
         searched_extra.add(key)
-        c = next((x for x in sel if x.key == key and x.kind == "contract"), None)
+        c = next((x for x in sel if x.key == key and x.kind == "contract" and x.slice is None), None)
         if c is None:
             continue
         replay_stats["searches"] += 1
@@ -278,8 +278,8 @@ def run(args):
     for fnkey, obs in failed_by_fn.items():
         c = obs[0]["contract"]
         found = None
-        if c is not None and c.kind == "contract":
-            # 1. replay candidate counter-models
+        if c is not None and c.kind == "contract" and c.slice is None:
+            # 1. replay candidate counter-models (not for statement slices: they are not callable on their own)
             seen = set()
             for ob in obs:
                 for r in ob["results"]:
